@@ -204,6 +204,46 @@ theorem gndx_keys : ∀ (mols : List Walk.Mol) (c idx : Nat) (j : Nat) (n : Walk
           exact List.mem_map.2 ⟨(n, k), List.mk_mem_zipIdx_iff_getElem?.2 hk, by simp⟩
         · right; exact ⟨by omega, m', h2, h3, h4⟩
 
+theorem gndx_ge : ∀ (mols : List Walk.Mol) (c idx : Nat) (e : (Nat × Walk.Node) × Nat),
+    e ∈ gndxTable mols c idx → idx ≤ e.2 := by
+  intro mols c idx e he
+  have hv := gndx_values mols c idx
+  have : e.2 ∈ (gndxTable mols c idx).map (·.2) := List.mem_map.2 ⟨e, he, rfl⟩
+  rw [hv] at this
+  exact (List.mem_range'_1.1 this).1
+
+/-- at the global index of every indexed residue the type table holds the type of that residue -/
+theorem atype_aligned (nm : Nat → Walk.Node → String) : ∀ (mols : List Walk.Mol) (c idx : Nat)
+    (e : (Nat × Walk.Node) × Nat), e ∈ gndxTable mols c idx →
+    (atypeTable nm mols c)[e.2 - idx]? = some (nm e.1.1 e.1.2) := by
+  intro mols
+  induction mols with
+  | nil => intro c idx e he; simp [gndxTable] at he
+  | cons m ms ih =>
+    intro c idx e he
+    unfold gndxTable at he
+    unfold atypeTable
+    split at he
+    · rename_i hig
+      simp only [hig, if_true]
+      exact ih _ _ e he
+    · rename_i hig
+      have hig' : m.ignored = false := by simpa using hig
+      simp only [hig', Bool.false_eq_true, if_false]
+      rcases List.mem_append.1 he with h | h
+      · obtain ⟨nk, hnk, rfl⟩ := List.mem_map.1 h
+        have hk := List.mem_zipIdx_iff_getElem?.1 hnk
+        have hlt : nk.2 < m.nodes.length := (List.getElem?_eq_some_iff.1 hk).1
+        simp only [Nat.add_sub_cancel_left]
+        rw [List.getElem?_append_left (by simpa using hlt)]
+        simp [List.getElem?_map, hk]
+      · have hge := gndx_ge ms (c + 1) (idx + m.nodes.length) e h
+        have := ih (c + 1) (idx + m.nodes.length) e h
+        rw [List.getElem?_append_right (by simp; omega)]
+        simp only [List.length_map]
+        have heq : e.2 - idx - m.nodes.length = e.2 - (idx + m.nodes.length) := by omega
+        rw [heq]; exact this
+
 /-! ### backmapping frame -/
 
 theorem placeRes_other (fudge : Rat) (r : BRes) (c : Coords) (a : Nat)
